@@ -329,6 +329,8 @@ func newRig(id string, calls []csmCall, bytesMode bool) (*rig, error) {
 		opt.SerializeType = protocol.SerializeNone
 	}
 	opt.Heartbeat = false
+	// every other rig hands server messages over in blocking mode (the channel has room: nothing about the calls differs)
+	opt.BidirectionalBlock = len(calls)%2 == 0
 	r.cl = client.NewClient(opt)
 	if err := r.cl.Connect("vsim", addr); err != nil {
 		return nil, err
